@@ -364,9 +364,10 @@ def _check_solve(case):
     tag = f"{P['scheme']}:{name}"
     if case['closed']:
         I0 = _integral(name, phi, geo, demo == 'K1')
+        coefs = problem.make_coefs(m, P)      # coefficient objects created once, terms re-assembled from them every step
         for k in range(P['steps']):
             old = np.array(phi.value)
-            problem.step_implicit(m, phi, P, dt)
+            problem.step_implicit(m, phi, P, dt, coefs=coefs)
             new = np.array(phi.value)
             if not np.all(np.isfinite(new)):
                 res.discarded = True
